@@ -3,15 +3,17 @@ EXTENDS ErgProg
 IQ == {"m7", "m1", "0", "1", "2", "7", "i31m", "i31", "i63m", "i63", "i64"}
 IS == {"m7", "m1", "0", "1", "2", "7", "i31", "i63"}
 FQ == {<<3, 1>>, <<-9, 2>>}
-SQ == {"ab", "x y", "q\"t", "b\\s", "{z}", "e'f"}
+SQ == {"ab", "x y", "q\"t", "b\\s", "{z}", "e'f", "U+E9", "aU+1F600b"}
 GridT == {"ilit", "bin", "cmp", "print"}
-AllT == {"ilit", "flit", "slit", "bin", "fbin", "cmp", "scat", "interp", "print", "ifp", "call", "loop", "wloop",
+AllT == {"ilit", "flit", "slit", "bin", "fbin", "cmp", "scat", "interp", "print", "ifp", "call", "loop", "wloop", "wloople",
          "lmk", "lcat", "llen", "lget", "assert", "tpat"}
-OptT == AllT \cup {"uprint"}
-UnusedT == {"ilit", "bin", "cmp", "print", "uprint", "call", "lmk", "lget"}
+OptT == AllT \cup {"uprint", "ublock", "ublockp"}
+UnusedT == {"ilit", "bin", "cmp", "print", "uprint", "ublock", "ublockp", "call", "lmk", "lget"}
 IG == {"m7", "0", "2", "i31", "i63"}
 IU == {"0", "2"}
 SU == {"ab"}
+UnitT == {"ilit", "call", "loop", "wloop", "wloople", "lmk", "lcat", "llen", "lget", "tpat", "cmp", "ifp", "assert", "print"}
+IUnit == {"0", "2"}
 NoF == {}
 NoS == {}
 ====
